@@ -199,6 +199,9 @@ def corpus():
     unwatchable = [mk("unwatchable-%d-%s" % (bd, kind), [(d, False, "a.toml") for d in range(4) if d != bd],
                       [("append", d, False, "a.toml", "", 560, 9) for d in range(4) if d != bd], broken="%d:%s" % (bd, kind))
                    for bd, kind in ((3, "dangling"), (0, "dangling"), (2, "missing"), (1, "file"), (3, "missing"), (3, "file"))]
+    # a configuration directory that is itself a symbolic link to a real directory elsewhere: watched like the others (all four served)
+    unwatchable += [mk("symlinked-dir-%d" % bd, four, [("append", d, False, "a.toml", "", 560, 9) for d in (bd, (bd + 1) % 4, bd)], broken="%d:linkdir" % bd)
+                    for bd in (3, 1)]
     return unwatchable + [
         mk("four-dirs", four, [("append", d, False, "a.toml", "", 560, 9) for d in (0, 1, 2, 3)]),
         mk("D19a-xtoml", [(1, False, "a.toml"), (1, False, "notes.xtoml"), (2, False, "footoml")],
